@@ -306,6 +306,10 @@ def snapshot_legal(eng: int, c0: int, c1: int, c2: int, c3: int, c4: int, c5: in
     pre: gate('snapshot_legal', eng=eng)
     post: _
     """
+    return snapshot_body(eng, c0, c1, c2, c3, c4, c5, hsel)
+
+
+def snapshot_body(eng: Any, c0: Any, c1: Any, c2: Any, c3: Any, c4: Any, c5: Any, hsel: Any) -> bool:
     from xstate_statemachine import Interpreter, SyncInterpreter
 
     sk = _sk()
